@@ -381,3 +381,13 @@ def _c14_fs_bs(v):
     parso tokenizes it differently from CPython without an error node, so leaves exist where CPython sees string text"""
     d = v.get('detail') or {}
     return d.get('fstring_backslash_brace') is True
+
+
+@classifier('c12_relative_dunder_future_import')
+def _c12_rel_future(v):
+    """F-C12-20: `from .__future__ import x` (a relative import of a module that happens to be called __future__) is
+    treated as a __future__ import (the source has a comment about exactly this)"""
+    d, msg, mech, ver = _c12(v)
+    import re
+    return (msg.startswith('future feature ') or msg.startswith('from __future__ imports must occur') or msg in ('not a chance',)) \
+        and bool(re.search(r'\bfrom\s*\.+\s*__future__\b', d.get('line_text') or ''))
